@@ -17,7 +17,7 @@ mod workload;
 
 use minimise::{minimise, size_of, ReplayFile};
 use prng::derive;
-use run::{digest_reference, execute, ExecCfg, Obs, Outcome};
+use run::{digest_reference, execute, ExecCfg, ExecResult, Obs, Outcome};
 use sched::{site_name, PolicyKind, Source, ALL_POLICIES, N_SITE_IDS};
 use serde::Serialize;
 use std::collections::{BTreeMap, HashSet};
@@ -58,7 +58,37 @@ fn arg_u64(args: &[String], key: &str, default: u64) -> u64 {
     arg(args, key).map(|v| v.parse().expect(key)).unwrap_or(default)
 }
 
+#[cfg(exmex_verif)]
+mod alloc_seam {
+    //! The process' global allocator is a seam every Rust binary owns: in the hooks-on build each
+    //! allocation made by a simulated thread can be a scheduling point (see sched::alloc_point).
+    use std::alloc::{GlobalAlloc, Layout, System};
+    pub struct SimAlloc;
+    unsafe impl GlobalAlloc for SimAlloc {
+        unsafe fn alloc(&self, l: Layout) -> *mut u8 {
+            let _ = crate::sched::LAST_ALLOC.try_with(|c| c.set(l.size()));
+            crate::sched::alloc_point();
+            System.alloc(l)
+        }
+        unsafe fn alloc_zeroed(&self, l: Layout) -> *mut u8 {
+            crate::sched::alloc_point();
+            System.alloc_zeroed(l)
+        }
+        unsafe fn realloc(&self, p: *mut u8, l: Layout, n: usize) -> *mut u8 {
+            let _ = crate::sched::LAST_ALLOC.try_with(|c| c.set(1_000_000_000 + n));
+            crate::sched::alloc_point();
+            System.realloc(p, l, n)
+        }
+        unsafe fn dealloc(&self, p: *mut u8, l: Layout) {
+            System.dealloc(p, l)
+        }
+    }
+    #[global_allocator]
+    static GLOBAL: SimAlloc = SimAlloc;
+}
+
 pub struct RunPlan {
+    pub alloc_every: u32,
     pub run_seed: u64,
     pub fault_run: bool,
     pub workload: Workload,
@@ -71,7 +101,11 @@ pub fn plan_run(batch_seed: u64, index: u64) -> RunPlan {
     let fault_run = index % 3 == 2;
     let workload = gen_workload(derive(run_seed, 1), GenCfg::native(fault_run));
     let policy = ALL_POLICIES[(derive(run_seed, 2) % ALL_POLICIES.len() as u64) as usize];
-    RunPlan { run_seed, fault_run, workload, policy, sched_seed: derive(run_seed, 3) }
+    // allocator scheduling points are only used in fresh-process runs (see cmd_fresh): what the regex
+    // cache pool has allocated before depends on the history of the process, and an in-process run
+    // has to replay exactly in a new process
+    let alloc_every = 0;
+    RunPlan { alloc_every, run_seed, fault_run, workload, policy, sched_seed: derive(run_seed, 3) }
 }
 
 fn rle(s: &[u8]) -> String {
@@ -312,6 +346,14 @@ fn cmd_native(args: &[String]) -> i32 {
     let progress = Arc::new(Mutex::new(progress));
     silence_panics();
     let hooks = sched::install_repo_hook();
+    // steady-state processes: every process-global lazily initialised by a first parse (the regexes,
+    // and whatever else a tree under test adds) is initialised before any simulated thread runs, so
+    // that no simulated thread is ever parked inside a `Once` initialiser (allocator seam). First-use
+    // races are the business of the fresh-process runs and of engine M.
+    if arg_u64(args, "--no-warm", 0) == 0 {
+        let h = std::thread::Builder::new().stack_size(run::STACK).spawn(|| warm_up(1)).unwrap();
+        let _ = h.join();
+    }
     let start = Instant::now();
     let next = Arc::new(AtomicU64::new(first));
     let stop = Arc::new(AtomicBool::new(false));
@@ -328,7 +370,6 @@ fn cmd_native(args: &[String]) -> i32 {
             std::thread::Builder::new()
                 .stack_size(run::STACK)
                 .spawn(move || {
-                    let cfg = ExecCfg::default();
                     let mut st = Stats::default();
                     let mut digests: HashSet<u64> = HashSet::new();
                     loop {
@@ -346,6 +387,7 @@ fn cmd_native(args: &[String]) -> i32 {
                             let _ = f.write_all(format!("{idx:<20}").as_bytes());
                         }
                         let plan = plan_run(seed, idx);
+                        let cfg = ExecCfg::with_alloc(plan.alloc_every);
                         let out = execute(
                             &plan.workload,
                             Source::Policy { kind: plan.policy, seed: plan.sched_seed },
@@ -386,6 +428,9 @@ fn cmd_native(args: &[String]) -> i32 {
                                     run_seed: plan.run_seed,
                                     policy: plan.policy,
                                     fault_run: plan.fault_run,
+                                alloc_every: plan.alloc_every,
+                                fresh_process: false,
+                                fresh_warm_full: false,
                                     workload: plan.workload.clone(),
                                     schedule: out.report.schedule.clone(),
                                     violation: v.clone(),
@@ -408,6 +453,9 @@ fn cmd_native(args: &[String]) -> i32 {
                                 run_seed: plan.run_seed,
                                 policy: plan.policy,
                                 fault_run: plan.fault_run,
+                                alloc_every: plan.alloc_every,
+                                fresh_process: false,
+                                fresh_warm_full: false,
                                 workload: plan.workload.clone(),
                                 schedule: out.report.schedule.clone(),
                                 violation: v.clone(),
@@ -418,7 +466,8 @@ fn cmd_native(args: &[String]) -> i32 {
                                 note: "unminimised failing run".into(),
                             };
                             let raw_path = write_replay(&replay_dir, &format!("C20-native-s{seed}-r{idx}-raw.json"), &raw);
-                            let m = minimise(&plan.workload, &out.report.schedule, v, plan.run_seed, plan.policy, &cfg, min_budget);
+                            let mut exec = |w: &Workload, s: Source| ExecResult::from(&execute(w, s, &cfg));
+                            let m = minimise(&plan.workload, &out.report.schedule, v, plan.run_seed, plan.policy, &mut exec, min_budget);
                             let rf = ReplayFile {
                                 workload: m.workload.clone(),
                                 schedule: m.schedule.clone(),
@@ -495,7 +544,22 @@ fn cmd_replay(args: &[String]) -> i32 {
     sched::install_repo_hook();
     let text = std::fs::read_to_string(path).expect("read replay file");
     let rf: ReplayFile = serde_json::from_str(&text).expect("parse replay file");
-    let cfg = ExecCfg::default();
+    let cfg = ExecCfg::with_alloc(rf.alloc_every);
+    let (fresh, full) = (rf.fresh_process, rf.fresh_warm_full);
+    let _ = std::thread::Builder::new()
+        .stack_size(run::STACK)
+        .spawn(move || {
+            if fresh {
+                kinds::warm_exmex_globals();
+                if full {
+                    warm_up(1);
+                }
+            } else {
+                warm_up(1)
+            }
+        })
+        .unwrap()
+        .join();
     let out = execute(&rf.workload, Source::Strict(rf.schedule.clone()), &cfg);
     println!("replay file: {path}");
     println!("recorded violation: {:?}", rf.violation);
@@ -595,6 +659,230 @@ fn warm_up(order: u64) {
     }
 }
 
+// ---------------------------------------------------------------------------------------------
+// first-use runs: every execution is the first simulated run of a fresh process
+// ---------------------------------------------------------------------------------------------
+
+#[derive(serde::Serialize, serde::Deserialize)]
+struct ChildJob {
+    workload: Workload,
+    source: Source,
+    alloc_every: u32,
+    /// false: only exmex' own regexes are initialised before the run (first-use runs);
+    /// true: one parse + eval of every kind happened before (steady state)
+    warm_full: bool,
+}
+
+/// child: read a job, warm exmex' own regexes, execute once, write the result
+fn cmd_firstuse_exec(args: &[String]) -> i32 {
+    let inp = arg(args, "--in").expect("--in");
+    let outp = arg(args, "--out").expect("--out");
+    silence_panics();
+    sched::install_repo_hook();
+    let job: ChildJob = serde_json::from_str(&std::fs::read_to_string(inp).expect("read job")).expect("job");
+    let h = std::thread::Builder::new()
+        .stack_size(run::STACK)
+        .spawn(move || {
+            kinds::warm_exmex_globals();
+            if job.warm_full {
+                warm_up(1);
+            }
+            let cfg = ExecCfg::with_alloc(job.alloc_every);
+            ExecResult::from(&execute(&job.workload, job.source, &cfg))
+        })
+        .unwrap();
+    let res = h.join().expect("child run");
+    let hung = res.violations.iter().any(|v| v.oracle == "O7");
+    std::fs::write(outp, serde_json::to_string(&res).unwrap()).expect("write result");
+    if hung {
+        std::process::exit(0);
+    }
+    0
+}
+
+fn child_exec(dir: &str, tag: u64, w: &Workload, source: Source, alloc_every: u32, warm_full: bool) -> Result<ExecResult, String> {
+    let inp = format!("{dir}/fu_{tag}.in.json");
+    let outp = format!("{dir}/fu_{tag}.out.json");
+    let _ = std::fs::remove_file(&outp);
+    let job = ChildJob { workload: w.clone(), source, alloc_every, warm_full };
+    std::fs::write(&inp, serde_json::to_string(&job).unwrap()).map_err(|e| e.to_string())?;
+    let exe = std::env::current_exe().map_err(|e| e.to_string())?;
+    let st = std::process::Command::new(exe)
+        .args(["firstuse-exec", "--in", &inp, "--out", &outp])
+        .stdout(std::process::Stdio::null())
+        .stderr(std::process::Stdio::piped())
+        .output()
+        .map_err(|e| e.to_string())?;
+    match std::fs::read_to_string(&outp) {
+        Ok(t) => serde_json::from_str(&t).map_err(|e| e.to_string()),
+        Err(_) => Err(format!(
+            "child died: status {:?} stderr {}",
+            st.status,
+            String::from_utf8_lossy(&st.stderr).chars().take(600).collect::<String>()
+        )),
+    }
+}
+
+pub struct FreshPlan {
+    pub workload: Workload,
+    pub policy: PolicyKind,
+    pub sched_seed: u64,
+    pub run_seed: u64,
+    pub alloc_every: u32,
+    pub warm_full: bool,
+    pub fault_run: bool,
+}
+
+/// Fresh-process runs come in two flavours (by index parity): first-use runs (no shared
+/// expressions, all threads start with the same parses, only exmex' regexes initialised) and
+/// steady-state runs of the ordinary workload. Both use the allocator seam.
+pub fn plan_fresh(batch_seed: u64, index: u64) -> FreshPlan {
+    let run_seed = derive(batch_seed ^ 0xF1F1_F1F1, index);
+    let first_use = index % 2 == 0;
+    let fault_run = !first_use && index % 6 == 5;
+    let workload = if first_use {
+        workload::gen_firstuse_workload(derive(run_seed, 1))
+    } else {
+        gen_workload(derive(run_seed, 1), GenCfg::native(fault_run))
+    };
+    let policy = ALL_POLICIES[(derive(run_seed, 2) % ALL_POLICIES.len() as u64) as usize];
+    let alloc_every = if first_use { 1 } else { [1, 1, 3, 2][(derive(run_seed, 4) % 4) as usize] };
+    FreshPlan { workload, policy, sched_seed: derive(run_seed, 3), run_seed, alloc_every, warm_full: !first_use, fault_run }
+}
+
+/// parent: a batch of first-use runs, each in its own child process
+fn cmd_firstuse(args: &[String]) -> i32 {
+    let seed = arg_u64(args, "--seed", 1);
+    let first = arg_u64(args, "--first", 0);
+    let count = arg_u64(args, "--count", 100);
+    let deadline_s = arg_u64(args, "--deadline-s", 3600);
+    let out_path = arg(args, "--out").unwrap_or("/dev/stdout").to_string();
+    let replay_dir = arg(args, "--replay-dir").unwrap_or("/verif/replays").to_string();
+    let scratch = arg(args, "--scratch").unwrap_or("/verif/target/scratch").to_string();
+    let digests_bin = arg(args, "--trace-digests-bin").map(|s| s.to_string());
+    let min_budget = arg_u64(args, "--min-budget", 1500);
+    std::fs::create_dir_all(&scratch).ok();
+    let start = Instant::now();
+    let tag = std::process::id() as u64;
+    let mut runs = 0u64;
+    let mut runs_steady = 0u64;
+    let mut faults_planned = 0u64;
+    let mut faults_fired = 0u64;
+    let mut steps = 0u64;
+    let mut decisions = 0u64;
+    let mut sw_inner = 0u64;
+    let mut sw_alloc = 0u64;
+    let mut ext_block = 0u64;
+    let mut digests: HashSet<u64> = HashSet::new();
+    let mut samples: Vec<serde_json::Value> = Vec::new();
+    let mut violation: Option<serde_json::Value> = None;
+    let mut harness_error: Option<String> = None;
+    for idx in first..first + count {
+        if start.elapsed().as_secs() >= deadline_s {
+            break;
+        }
+        let fp = plan_fresh(seed, idx);
+        let (w, policy, sched_seed, run_seed) = (fp.workload.clone(), fp.policy, fp.sched_seed, fp.run_seed);
+        let (alloc_every, warm_full) = (fp.alloc_every, fp.warm_full);
+        if warm_full {
+            runs_steady += 1;
+        }
+        faults_planned += w.faults.len() as u64;
+        let res = match child_exec(&scratch, tag, &w, Source::Policy { kind: policy, seed: sched_seed }, alloc_every, warm_full) {
+            Ok(r) => r,
+            Err(e) => {
+                // a child that dies of a signal is a crash of the code under test or of the harness;
+                // report it as a candidate, the driver re-executes it
+                violation = Some(serde_json::json!({"crash": true, "run_index": idx, "detail": e}));
+                break;
+            }
+        };
+        runs += 1;
+        steps += res.report.steps;
+        decisions += res.report.decisions;
+        sw_inner += res.report.switches_inner;
+        sw_alloc += res.report.switch_at.get(sched::SEAM_ALLOC as usize).copied().unwrap_or(0);
+        ext_block += res.report.ext_block_events;
+        faults_fired += res.report.faults_fired.len() as u64;
+        if res.report.switches_inner >= 1 {
+            digests.insert(res.report.trace_digest);
+        }
+        if samples.is_empty() && res.report.schedule.len() < 600 {
+            samples.push(serde_json::json!({
+                "kind": "first-use run in a fresh process", "run_index": idx, "policy": format!("{policy:?}"),
+                "threads": w.threads.iter().map(|t| t.iter().map(|o| format!("{o:?}")).collect::<Vec<_>>()).collect::<Vec<_>>(),
+                "schedule_rle": rle(&res.report.schedule), "steps": res.report.steps,
+            }));
+        }
+        if let Some(v) = res.violations.first() {
+            if v.oracle == "HARNESS" {
+                harness_error = Some(format!("first-use run {idx}: {v:?}"));
+                break;
+            }
+            let orig = size_of(&w, &res.schedule);
+            let mk = |w: &Workload, sched: &[u8], v: &run::Violation, minimised: bool, fin, execs, note: &str| ReplayFile {
+                property: "C20".into(),
+                engine: "native".into(),
+                batch_seed: seed,
+                run_index: idx,
+                run_seed,
+                policy,
+                fault_run: fp.fault_run,
+                alloc_every,
+                fresh_process: true,
+                fresh_warm_full: warm_full,
+                workload: w.clone(),
+                schedule: sched.to_vec(),
+                violation: v.clone(),
+                minimised,
+                original_size: orig,
+                final_size: fin,
+                minimiser_executions: execs,
+                note: note.into(),
+            };
+            let raw_path = write_replay(&replay_dir, &format!("C20-firstuse-s{seed}-r{idx}-raw.json"),
+                &mk(&w, &res.schedule, v, false, orig, 0, "unminimised failing first-use run (fresh process)"));
+            let mut exec = |w: &Workload, s: Source| match child_exec(&scratch, tag, w, s, alloc_every, warm_full) {
+                Ok(r) => r,
+                Err(_) => ExecResult { violations: vec![], schedule: vec![], report: Default::default(), n_victims: 0, ref_digest: 0 },
+            };
+            let m = minimise(&w, &res.schedule, v, run_seed, policy, &mut exec, min_budget);
+            let fin = size_of(&m.workload, &m.schedule);
+            let min_path = write_replay(&replay_dir, &format!("C20-firstuse-s{seed}-r{idx}-min.json"),
+                &mk(&m.workload, &m.schedule, &m.violation, true, fin, m.executions, "minimised first-use run; every candidate was executed in a fresh process"));
+            violation = Some(serde_json::json!({"replay": min_path, "raw_replay": raw_path, "violation": m.violation,
+                "original_size": orig, "final_size": fin}));
+            break;
+        }
+    }
+    let v = serde_json::json!({
+        "firstuse_runs": runs, "fresh_steady_state_runs": runs_steady, "fresh_first_use_runs": runs - runs_steady,
+        "faults_planned": faults_planned, "faults_fired": faults_fired, "steps_total": steps, "decisions_total": decisions, "switches_inner": sw_inner,
+        "switches_at_allocator_seam": sw_alloc, "ext_block_events": ext_block,
+        "distinct_nontrivial_trace_digests": digests.len(), "samples": samples, "violation": violation,
+        "harness_error": harness_error, "wall_s": start.elapsed().as_secs_f64(),
+    });
+    std::fs::write(&out_path, serde_json::to_string_pretty(&v).unwrap()).expect("write out");
+    if let Some(p) = digests_bin {
+        let mut buf = Vec::new();
+        let mut ds: Vec<u64> = digests.into_iter().collect();
+        ds.sort_unstable();
+        for d in ds {
+            buf.extend_from_slice(&d.to_le_bytes());
+        }
+        std::fs::write(p, buf).expect("write digests");
+    }
+    if v["harness_error"].is_string() {
+        eprintln!("HARNESS-ERROR {}", v["harness_error"]);
+        return 2;
+    }
+    if v["violation"].is_object() {
+        println!("VIOLATION-CANDIDATE {}", v["violation"]);
+        return 1;
+    }
+    0
+}
+
 fn cmd_show(args: &[String]) -> i32 {
     let seed = arg_u64(args, "--seed", 1);
     let idx = arg_u64(args, "--index", 0);
@@ -604,13 +892,46 @@ fn cmd_show(args: &[String]) -> i32 {
     0
 }
 
+extern "C" {
+    fn sched_getcpu() -> i32;
+    fn sched_setaffinity(pid: i32, cpusetsize: usize, mask: *const u64) -> i32;
+}
+
+/// Pins this process (and the children and threads it creates later) to the one CPU it is
+/// running on. Two reasons: (1) only one simulated thread runs at a time, and a baton hand-over
+/// between threads on one CPU is a cheap local context switch (cross-CPU wake-ups cost 10-50x
+/// in this VM); (2) determinism: `std::thread::available_parallelism()` (= size of the affinity
+/// mask) leaks into the code under test — the regex crate sizes its cache pool by it — and with
+/// it the allocation pattern that the allocator seam turns into scheduling points. With the mask
+/// fixed to one CPU a run does not depend on where or how the process was started.
+fn pin_to_one_cpu() {
+    unsafe {
+        let cpu = sched_getcpu();
+        if cpu < 0 || cpu >= 1024 {
+            return;
+        }
+        let mut mask = [0u64; 16];
+        mask[(cpu / 64) as usize] = 1u64 << (cpu % 64);
+        let _ = sched_setaffinity(0, std::mem::size_of_val(&mask), mask.as_ptr());
+    }
+}
+
 fn main() {
     let args: Vec<String> = std::env::args().skip(1).collect();
+    if matches!(
+        args.first().map(|s| s.as_str()),
+        Some("native" | "replay" | "refdigest" | "firstuse" | "firstuse-exec" | "fu-one")
+    ) {
+        pin_to_one_cpu();
+    }
     let code = match args.first().map(|s| s.as_str()) {
         Some("native") => cmd_native(&args[1..]),
         Some("replay") => cmd_replay(&args[1..]),
         Some("refdigest") => cmd_refdigest(&args[1..]),
         Some("show") => cmd_show(&args[1..]),
+        Some("firstuse") => cmd_firstuse(&args[1..]),
+        Some("fu-one") => cmd_fu_one(&args[1..]),
+        Some("firstuse-exec") => cmd_firstuse_exec(&args[1..]),
         Some("panics") => cmd_panics(&args[1..]),
         Some("plain") => plain::cmd_plain(&args[1..], &YIELD_EVERY),
         _ => {
@@ -643,5 +964,40 @@ pub fn cmd_panics(args: &[String]) -> i32 {
     for (k, (n, ex)) in hist {
         println!("{n:6} {k}   e.g. {}", ex.chars().take(200).collect::<String>());
     }
+    0
+}
+
+#[allow(dead_code)]
+pub fn cmd_fu_one(args: &[String]) -> i32 {
+    // debugging aid: execute first-use run `--index` of batch `--seed` in this (fresh) process
+    let seed = arg_u64(args, "--seed", 1);
+    let idx = arg_u64(args, "--index", 0);
+    silence_panics();
+    sched::install_repo_hook();
+    let fp = plan_fresh(seed, idx);
+    let (w, policy, sched_seed) = (fp.workload.clone(), fp.policy, fp.sched_seed);
+    let h = std::thread::Builder::new().stack_size(run::STACK).spawn(move || {
+        kinds::warm_exmex_globals();
+        if fp.warm_full {
+            warm_up(1);
+        }
+        let cfg = ExecCfg::with_alloc(fp.alloc_every);
+        sched::TRACE_ON.store(true, Ordering::Relaxed);
+        let r = ExecResult::from(&execute(&w, Source::Policy { kind: policy, seed: sched_seed }, &cfg));
+        sched::TRACE_ON.store(false, Ordering::Relaxed);
+        if let Ok(p) = std::env::var("SIM_TRACE") {
+            let t = sched::TRACE.lock().unwrap();
+            let mut s = String::new();
+            for (tid, site, aux) in t.iter() {
+                s.push_str(&format!("{tid} {} {aux}\n", sched::site_name(*site)));
+            }
+            std::fs::write(p, s).unwrap();
+        }
+        let r2 = ExecResult::from(&execute(&w, Source::Strict(r.schedule.clone()), &cfg));
+        (r, r2)
+    }).unwrap();
+    let (r, r2) = h.join().unwrap();
+    println!("violations={} steps={} digest={:016x} | second run in same process (strict): violations={} diverged={} steps={}",
+        r.violations.len(), r.report.steps, r.report.trace_digest, r2.violations.len(), r2.report.diverged, r2.report.steps);
     0
 }
